@@ -188,7 +188,7 @@ def _tree_job(args):
                 if keep_ext and flt[0] == "OK":
                     flt = (flt[0], [m for m in flt[1] if inner(m)], [(a, b) for a, b in flt[2] if inner(a) and inner(b)], flt[3])
                 out["n"] += 1
-                case = dict(dirs=[list(d) for d in dirs], files={scan.dotted(f): (scan.render_file(v["body"]) if v["py"] else None) for f, v in files.items()},
+                case = dict(dirs=[list(d) for d in dirs], files={scan.dotted(f): (scan.render_v(v) if v["py"] else None) for f, v in files.items()},
                             module_path=list(mp), options={k: list(v) for k, v in kw.items()})
                 if flt[0] != "OK":
                     out["violations"].append((dict(case, error=flt[1]), f"filtered scan failed: {flt[1]}", {"kind": "scan_error"}))
